@@ -13,6 +13,7 @@ import HtpModel.Lemmas.CFunsChunked
 import HtpModel.Lemmas.CFunsNorzero
 import HtpModel.Lemmas.CFunsSearchNocase
 import HtpModel.Lemmas.CFunsRing
+import HtpModel.Lemmas.CFunsBstr
 
 namespace Htp.C17
 open Htp.Ring
@@ -469,6 +470,32 @@ theorem C17_translated_ring_sim (n : Nat) (hn : 0 < n) (ops : List Htp.CFuns.COp
     ∃ f, Htp.CFuns.runC (Htp.CFuns.fieldsOf (Htp.Ring.create n)) ops = some (f, (Htp.CFuns.runS [] ops).2) ∧
       Htp.Ring.WF (Htp.CFuns.ringOf f) ∧ Htp.Ring.abs (Htp.CFuns.ringOf f) = (Htp.CFuns.runS [] ops).1 :=
   Htp.CFuns.cring_sim_fresh n hn ops (fun _ _ => by unfold Htp.CFuns.COp.ok; split <;> trivial) hK
+
+/-- **C17 (bstr accessors, translated code)**: the functions that take a `bstr *` (content and length passed as a buffer and an integer; bstr_ptr /
+    bstr_len / bstr_adjust_len recognised by the translator) - indexed access from both ends, first and last occurrence of a byte (the C scans
+    backwards, the model forwards: proved to meet), prefix tests with and without case folding, chop, and the in-place lower-casing loop that
+    WRITES the buffer - return the model's values, for every string. -/
+theorem C17_translated_bstr_access (d : Bytes) (h : d.length < 2147483648) (fuel : Nat) (hf : d.length < fuel) (pos : Nat) (c : UInt8) :
+    (bstr_char_at fuel (memOf d) d.length pos).map (·.1) = some (match charAt d pos with | some x => (x.toNat : Int) | none => -1) ∧
+    (bstr_char_at_end fuel (memOf d) d.length pos).map (·.1) = some (match charAtEnd d pos with | some x => (x.toNat : Int) | none => -1) ∧
+    (bstr_chr fuel (memOf d) d.length c.toNat).map (·.1) = some (match chr d c with | some i => (i : Int) | none => -1) ∧
+    (bstr_rchr fuel (memOf d) d.length c.toNat).map (·.1) = some (match rchr d c with | some i => (i : Int) | none => -1) :=
+  ⟨Htp.CFuns.BstrC.bstr_char_at_eq fuel d pos, Htp.CFuns.BstrC.bstr_char_at_end_eq fuel d (by omega) pos,
+   Htp.CFuns.BstrC.bstr_chr_eq d c h fuel hf, Htp.CFuns.BstrC.bstr_rchr_eq d c h fuel hf⟩
+
+/-- prefix tests, chop and the in-place lower-casing (which writes the buffer) -/
+theorem C17_translated_bstr_prefix_lower (hay needle : Bytes) (h1 : hay.length < 9223372036854775808)
+    (h2 : needle.length < 9223372036854775808) (fuel : Nat) (hf : hay.length < fuel) :
+    (bstr_begins_with_mem fuel needle (memOf hay) hay.length needle.length).map (·.1) = some (b2i (beginsWithMem hay needle)) ∧
+    (bstr_begins_with_mem_nocase fuel needle (memOf hay) hay.length needle.length).map (·.1) = some (b2i (beginsWithMemNocase hay needle)) ∧
+    (bstr_chop fuel (memOf hay) hay.length).map (fun r => (r.2.b_len, r.2.b_mem)) = some (((chop hay).length : Int), memOf hay) ∧
+    (bstr_to_lowercase fuel (memOf hay) hay.length).map (fun r => (r.1, r.2.b_len, r.2.b_mem))
+      = some (1, (hay.length : Int), memOf (toLowercase hay)) := by
+  have hm : min hay.length needle.length < fuel := by omega
+  refine ⟨Htp.CFuns.BstrC.bstr_begins_with_mem_eq hay needle h1 h2 fuel hm,
+          Htp.CFuns.BstrC.bstr_begins_with_mem_nocase_eq hay needle h1 h2 fuel hm, ?_, ?_⟩
+  · rw [Htp.CFuns.BstrC.bstr_chop_eq fuel hay h1]; rfl
+  · rw [Htp.CFuns.BstrC.bstr_to_lowercase_eq hay h1 fuel hf]; rfl
 
 /-- non-vacuity: the translated terms run -/
 example : (bstr_util_cmp_mem 3 (b!"ab") (b!"ac") 2 2).map (·.1) = some (-1) := by decide +kernel
